@@ -223,7 +223,8 @@ def rand_receiver(rng):
     amplify = bool(rng.integers(2))
     BW_el = float(10 ** rng.uniform(8.5, 10.5))
     return dict(P_avg=float(rng.uniform(-50, 0)), ER=float(rng.uniform(3, 40)) if rng.integers(4) else np.inf, amplify=amplify,
-                wavelength=float(rng.choice([1550e-9, 1310e-9, 1565e-9])), G=float(rng.uniform(0, 40)) if amplify else 0.0, NF=float(rng.uniform(3, 10)),
+                wavelength=float(rng.choice([1550e-9, 1310e-9, 1565e-9])), G=(float(rng.uniform(0, 40)) if rng.integers(8) else float(rng.choice([0.0, 40.0]))) if amplify else 0.0,
+                NF=float(rng.uniform(3, 10)) if rng.integers(8) else float(rng.choice([3.0, 10.0])),
                 BW_opt=BW_el * float(rng.uniform(1.05, 30)), r=float(rng.uniform(0.05, 1)), BW_el=BW_el, R_L=float(10 ** rng.uniform(1, 4)), T=float(rng.uniform(0, 400)) if rng.integers(10) else 0.0,
                 NF_el=float(rng.uniform(0, 10)) if rng.integers(2) else 0.0)
 
